@@ -119,7 +119,7 @@ def _apply(t, sub):
 def resolve_minmax(t, counter, lower):
     """Resolve max/min subterms whose arguments are affine in `counter` given counter >= lower."""
     from fractions import Fraction
-    if not isinstance(t, tuple):
+    if not isinstance(t, tuple) or not t:
         return t
     t = tuple(resolve_minmax(x, counter, lower) if isinstance(x, tuple) else x for x in t)
     if t[0] == "fn" and t[1] in ("max", "min") and len(t[2]) == 2:
